@@ -306,7 +306,7 @@ func c08(tier string) {
 	})
 	// ---- part (ii)
 	self := os.Getenv("VERIF_SELF")
-	tmp, _ := os.MkdirTemp("", "c08")
+	tmp := lib.TempDir("c08")
 	defer os.RemoveAll(tmp)
 	straceRun := func(tag string, args ...string) (string, error) {
 		logf := filepath.Join(tmp, tag+".strace")
